@@ -184,6 +184,15 @@ class SymE(object):
             return tuple(self._in(x) for x in v)
         return v
 
+    def feasibility_budget(self, ms):
+        """time given to each branch-feasibility query (no answer = explored as feasible; vacuous paths are harmless)"""
+        self.e.feas_timeout_ms = ms
+
+    def side_conditions(self, on=True):
+        """implicit exceptions of arithmetic (ZeroDivisionError, sqrt/acos domain) become verification conditions
+        `pc => cannot raise` instead of path splits (for code that does not catch them)"""
+        self.e.side_mode = on
+
     def use_contract(self, qual, summary):
         """modular rule: from now on (this path) calls of `qual` are replaced by `summary(E, args, kwargs)`,
         which must check the callee's precondition with E.ensure and return a value constrained only by the
@@ -509,6 +518,8 @@ class ConcE(object):
 
     # symbols
     def _num(self, name, default_sampler):
+        if name in self.used:
+            return self.used[name]      # the same symbol name denotes the same value
         if name in self.values:
             v = self.values[name]
             if isinstance(v, (list, tuple)):
@@ -623,6 +634,12 @@ class ConcE(object):
         for k, v in fields.items():
             object.__setattr__(o, k, self._raw(v))
         return View(o, self)
+
+    def side_conditions(self, on=True):
+        pass
+
+    def feasibility_budget(self, ms):
+        pass
 
     def use_contract(self, qual, summary):
         pass  # the real callee runs
